@@ -81,6 +81,13 @@ def cases_for_c04(run: Run, tier: str) -> list[dict]:
     return [{"src": c["src"], "mode": "eval", "origin": "c10"} for c in keep]
 
 
+def fmode_cases(run: Run) -> list[dict]:
+    """complete single-line literals of the mode-machine model (FMode.tla); CPython decides which are valid"""
+    from .. import gens
+
+    return [{"src": c["src"], "origin": "fmode.tla", "items": []} for c in gens.fmode(run) if c["outcome"] == "ok"]
+
+
 def cases_for(run: Run, tier: str) -> list[dict]:
     return generate(run, tier) + corpus_fstrings(40 if tier == "quick" else 600)
 
@@ -125,7 +132,7 @@ def evaluate(run: Run, cases: list[dict], tag: str, count: bool) -> dict[int, li
 def check(run: Run) -> None:
     from .. import fsreduce
 
-    cases = cases_for(run, run.tier)
+    cases = cases_for(run, run.tier) + fmode_cases(run)
     bad = evaluate(run, cases, "", True)
     # explanation by reduction: the same literal without the features of the listed findings must agree completely
     known = {f["id"] for f in run.findings if f.get("status") == "known"}
